@@ -121,6 +121,33 @@ impl<S> MemCase<S> {
     }
 }
 
+/// Verification hooks, compiled only with `--cfg epserde_verif`.
+#[cfg(epserde_verif)]
+impl<S> MemCase<S> {
+    /// Return the address range `(start, len)` of the backing region, if any.
+    pub fn verif_backend_range(&self) -> Option<(usize, usize)> {
+        self.1.as_ref().map(|b| (b.as_ptr() as usize, b.len()))
+    }
+    /// Return the kind of backend: 0 = none, 1 = heap memory, 2 = mmap.
+    pub fn verif_backend_kind(&self) -> u8 {
+        match &self.1 {
+            MemBackend::None => 0,
+            MemBackend::Memory(_) => 1,
+            #[cfg(feature = "mmap")]
+            MemBackend::Mmap(_) => 2,
+        }
+    }
+}
+
+/// Verification hooks, compiled only with `--cfg epserde_verif`.
+#[cfg(all(epserde_verif, feature = "mmap"))]
+impl Flags {
+    /// Return the bits of the `mmap_rs` flags these flags are translated to.
+    pub fn verif_mmap_flags(&self) -> u32 {
+        self.mmap_flags().bits()
+    }
+}
+
 unsafe impl<S: Send> Send for MemCase<S> {}
 unsafe impl<S: Sync> Sync for MemCase<S> {}
 
